@@ -50,6 +50,13 @@ pub open spec fn dec_out(s: Seq<u8>) -> Option<OutRaw> {
         }
     }
 }
+// whether Script::from_bytes accepts a byte string: an uninterpreted function of the bytes. That the outcome of
+// Script::from_bytes IS a function of its input (it is a pure function) is assumed at its call sites (@stubonly clause);
+// WHICH strings it accepts is the business of unit script_parse (C02).
+pub uninterp spec fn script_accepts(b: Seq<u8>) -> bool;
+pub open spec fn in_scripts_ok(r: InRaw) -> bool { is_coinbase_outpoint(r.txid_wire, r.vout) || script_accepts(r.script) }
+pub open spec fn ins_scripts_ok(v: Seq<InRaw>) -> bool { forall|i: int| 0 <= i < v.len() ==> in_scripts_ok(#[trigger] v[i]) }
+pub open spec fn outs_scripts_ok(v: Seq<OutRaw>) -> bool { forall|i: int| 0 <= i < v.len() ==> script_accepts((#[trigger] v[i]).script) }
 pub open spec fn is_coinbase_outpoint(txid_wire: Seq<u8>, vout: u32) -> bool { txid_wire == zeros32() && vout == 0xffffffffu32 }
 // the parsed input reports exactly what the decoder reads
 pub open spec fn in_matches(t: TxIn, r: InRaw) -> bool {
@@ -93,3 +100,31 @@ pub open spec fn tx_matches(t: Transaction, r: TxRaw) -> bool {
 pub open spec fn sum_values(s: Seq<TxOut>) -> int decreases s.len() { if s.len() == 0 { 0 } else { sum_values(s.drop_last()) + s.last().value as int } }
 pub open spec fn tx_is_coinbase(t: Transaction) -> bool { t.inputs@.len() == 1 && t.inputs@[0].prev_tx_id@ == zeros32() && t.inputs@[0].vout == 0xffffffffu32 }
 
+
+// decoding k items is a prefix of decoding n >= k items
+pub proof fn lemma_dec_ins_prefix(s: Seq<u8>, k: nat, n: nat)
+    requires k <= n, dec_ins(s, n) is Some,
+    ensures dec_ins(s, k) is Some, dec_ins(s, k)->Some_0.0 == dec_ins(s, n)->Some_0.0.take(k as int), dec_ins(s, n)->Some_0.0.len() == n,
+    decreases n
+{
+    if n == 0 { assert(dec_ins(s, n)->Some_0.0.take(0) =~= Seq::<InRaw>::empty()); }
+    else if k == n { assert(dec_ins(s, (n - 1) as nat) is Some); lemma_dec_ins_prefix(s, (n - 1) as nat, (n - 1) as nat); assert(dec_ins(s, n)->Some_0.0.take(n as int) =~= dec_ins(s, n)->Some_0.0); }
+    else {
+        assert(dec_ins(s, (n - 1) as nat) is Some);
+        lemma_dec_ins_prefix(s, k, (n - 1) as nat);
+        assert(dec_ins(s, n)->Some_0.0.take(k as int) =~= dec_ins(s, (n - 1) as nat)->Some_0.0.take(k as int));
+    }
+}
+pub proof fn lemma_dec_outs_prefix(s: Seq<u8>, k: nat, n: nat)
+    requires k <= n, dec_outs(s, n) is Some,
+    ensures dec_outs(s, k) is Some, dec_outs(s, k)->Some_0.0 == dec_outs(s, n)->Some_0.0.take(k as int), dec_outs(s, n)->Some_0.0.len() == n,
+    decreases n
+{
+    if n == 0 { assert(dec_outs(s, n)->Some_0.0.take(0) =~= Seq::<OutRaw>::empty()); }
+    else if k == n { assert(dec_outs(s, (n - 1) as nat) is Some); lemma_dec_outs_prefix(s, (n - 1) as nat, (n - 1) as nat); assert(dec_outs(s, n)->Some_0.0.take(n as int) =~= dec_outs(s, n)->Some_0.0); }
+    else {
+        assert(dec_outs(s, (n - 1) as nat) is Some);
+        lemma_dec_outs_prefix(s, k, (n - 1) as nat);
+        assert(dec_outs(s, n)->Some_0.0.take(k as int) =~= dec_outs(s, (n - 1) as nat)->Some_0.0.take(k as int));
+    }
+}
